@@ -75,16 +75,14 @@ Proof.
   destruct ok; [apply IH in H; congruence|inversion H; subst; exact H1].
 Qed.
 
-Lemma ids_bulk_loop : forall rows d t k seen d' o, bulk_loop d t rows k seen = (d', o) -> ids d' = ids d.
-Proof.
-  induction rows as [|r rest IH]; intros d t k seen d' o H; cbn [bulk_loop] in H; [inversion H; reflexivity|].
-  destruct (get_table d t) as [tb|]; [|inversion H; reflexivity].
-  destruct (bulk_row_ok d tb seen r); [|inversion H; reflexivity].
-  apply IH in H. rewrite H. apply ids_upd. reflexivity.
-Qed.
-
 Lemma ids_pushes : forall rows d t, ids (fold_left (fun d0 r => push_row d0 t r) rows d) = ids d.
 Proof. induction rows as [|r rest IH]; intros; cbn [fold_left]; [reflexivity|]. rewrite IH. apply ids_upd. reflexivity. Qed.
+
+Lemma ids_bulk_transfer : forall d t tb rows d' o, bulk_transfer d t tb rows = (d', o) -> ids d' = ids d.
+Proof.
+  intros d t tb rows d' o H. unfold bulk_transfer in H.
+  destruct (bulk_validate d tb rows 0 []); inversion H; subst; [reflexivity|apply ids_pushes].
+Qed.
 
 Section Ids.
   Variable run_body : trig -> option row -> option row -> db -> db * option (nat * bool).
@@ -153,7 +151,7 @@ Section Ids.
   Lemma ids_do_update : forall b ctx d t asg w d' log o, do_update run_body b ctx d t asg w = (d', log, o) -> ids d' = ids d.
   Proof.
     intros b ctx d t asg w d' log o H. unfold do_update in H. unfold fireS, fireRs in H.
-    destruct (if is_none ctx then fire_stmt db run_body b (d_trigs d) t Before (EvUpdate None) d else (d, [], None)) as [[d1 l1] r1] eqn:E1.
+    destruct (if is_none ctx then fire_stmt db run_body b (d_trigs d) t Before (EvUpdate (Some (map fst asg))) d else (d, [], None)) as [[d1 l1] r1] eqn:E1.
     apply ids_opt_stmt in E1. destruct r1; [inversion H; subst; exact E1|].
     destruct (get_table d1 t) as [tb|]; [|inversion H; subst; exact E1].
     destruct (update_plan ctx d1 tb asg w) as [k|ups]; [inversion H; subst; exact E1|].
@@ -165,13 +163,13 @@ Section Ids.
     { destruct (s_pk (tb_schema tb)); [|inversion E2; subst; exact E1].
       destruct (existsb _ asg); [|inversion E2; subst; exact E1]. apply ids_cascade_updates in E2. congruence. }
     destruct r2; [inversion H; subst; exact H2|].
-    destruct (fire_rows db run_body b (d_trigs d) t Before (EvUpdate None) (images ups) 0 d2) as [[d3 l3] r3] eqn:E3. apply ids_fire_rows in E3.
+    destruct (fire_rows db run_body b (d_trigs d) t Before (EvUpdate (Some (map fst asg))) (images ups) 0 d2) as [[d3 l3] r3] eqn:E3. apply ids_fire_rows in E3.
     destruct r3 as [[k c]|]; [inversion H; subst; congruence|].
     destruct (apply_updates t ups 0 d3) as [[d4 r4] m4] eqn:E4. apply ids_apply_updates in E4.
     destruct r4; [inversion H; subst; congruence|].
-    destruct (fire_rows db run_body b (d_trigs d) t After (EvUpdate None) (images ups) 0 d4) as [[d5 l5] r5] eqn:E5. apply ids_fire_rows in E5.
+    destruct (fire_rows db run_body b (d_trigs d) t After (EvUpdate (Some (map fst asg))) (images ups) 0 d4) as [[d5 l5] r5] eqn:E5. apply ids_fire_rows in E5.
     destruct r5 as [[k c]|]; [inversion H; subst; congruence|].
-    destruct (if is_none ctx then fire_stmt db run_body b (d_trigs d) t After (EvUpdate None) d5 else (d5, [], None)) as [[d6 l6] r6] eqn:E6.
+    destruct (if is_none ctx then fire_stmt db run_body b (d_trigs d) t After (EvUpdate (Some (map fst asg))) d5 else (d5, [], None)) as [[d6 l6] r6] eqn:E6.
     apply ids_opt_stmt in E6. destruct r6; inversion H; subst; congruence.
   Qed.
 
@@ -210,8 +208,8 @@ Section Ids.
     - unfold do_insert_select in H.
       destruct (get_table d t) as [dst|]; [|inversion H; reflexivity].
       destruct (get_table d src) as [sr|]; [|inversion H; reflexivity].
-      destruct (star && bulk_eligible dst sr).
-      + destruct (bulk_loop d t (tb_rows sr) 0 []) as [dd oo] eqn:Eb. inversion H; subst. eapply ids_bulk_loop; eauto.
+      destruct (star && is_none (hd_error (triggers_for_table (d_trigs d) t EvInsert)) && bulk_eligible dst sr).
+      + destruct (bulk_transfer d t dst (tb_rows sr)) as [dd oo] eqn:Eb. inversion H; subst. eapply ids_bulk_transfer; eauto.
       + destruct (Nat.eqb _ _); [|inversion H; reflexivity]. eapply ids_do_insert_rows; eauto.
     - eapply ids_do_update; eauto.
     - eapply ids_do_delete; eauto.
@@ -672,7 +670,7 @@ Section Frame.
                      exists u, In u ups /\ f_old fi = Some (snd (fst u)) /\ f_new fi = Some (snd u)).
   Proof.
     intros b ctx asg w d' log n tb H Hwf Ht Hself. unfold do_update in H. unfold fireS, fireRs in H.
-    destruct (if is_none ctx then fire_stmt db run_body b (d_trigs d0) t Before (EvUpdate None) d0 else (d0, [], None)) as [[d1 l1] r1] eqn:E1.
+    destruct (if is_none ctx then fire_stmt db run_body b (d_trigs d0) t Before (EvUpdate (Some (map fst asg))) d0 else (d0, [], None)) as [[d1 l1] r1] eqn:E1.
     pose proof (ids_opt_stmt run_body Hids _ _ _ _ _ _ _ _ _ _ E1) as Hi1.
     assert (Hwf1 : wf d1) by (apply (wf_ids d0); assumption).
     pose proof (opt_stmt_gran run_body _ _ _ _ _ _ _ _ _ _ E1) as G1.
@@ -690,7 +688,7 @@ Section Frame.
       apply ids_cascade_updates in E2. congruence. }
     destruct H2 as [H2 Hi2].
     destruct r2; [discriminate|].
-    destruct (fire_rows db run_body b (d_trigs d0) t Before (EvUpdate None) (images ups) 0 d2) as [[d3 l3] r3] eqn:E3.
+    destruct (fire_rows db run_body b (d_trigs d0) t Before (EvUpdate (Some (map fst asg))) (images ups) 0 d2) as [[d3 l3] r3] eqn:E3.
     pose proof (fire_rows_legit run_body _ _ _ _ _ _ _ _ _ _ _ E3 (or_introl eq_refl)) as L3.
     pose proof (ids_fire_rows run_body Hids _ _ _ _ _ _ _ _ _ _ _ E3) as Hi3.
     apply fire_rows_frame in E3; [|exact Hi2]. destruct r3 as [[k c]|]; [discriminate|].
@@ -698,11 +696,11 @@ Section Frame.
     destruct r4; [discriminate|].
     pose proof (ids_apply_updates _ _ _ _ _ _ _ E4) as Hi4.
     destruct (apply_updates_rows _ _ _ _ _ _ _ E4 (eq_trans E3 H2)) as (tb4 & Hg4 & Hr4 & Hs4).
-    destruct (fire_rows db run_body b (d_trigs d0) t After (EvUpdate None) (images ups) 0 d4) as [[d5 l5] r5] eqn:E5.
+    destruct (fire_rows db run_body b (d_trigs d0) t After (EvUpdate (Some (map fst asg))) (images ups) 0 d4) as [[d5 l5] r5] eqn:E5.
     pose proof (fire_rows_legit run_body _ _ _ _ _ _ _ _ _ _ _ E5 (or_intror eq_refl)) as L5.
     pose proof (ids_fire_rows run_body Hids _ _ _ _ _ _ _ _ _ _ _ E5) as Hi5.
     apply fire_rows_frame in E5; [|congruence]. destruct r5 as [[k c]|]; [discriminate|].
-    destruct (if is_none ctx then fire_stmt db run_body b (d_trigs d0) t After (EvUpdate None) d5 else (d5, [], None)) as [[d6 l6] r6] eqn:E6.
+    destruct (if is_none ctx then fire_stmt db run_body b (d_trigs d0) t After (EvUpdate (Some (map fst asg))) d5 else (d5, [], None)) as [[d6 l6] r6] eqn:E6.
     pose proof (opt_stmt_gran run_body _ _ _ _ _ _ _ _ _ _ E6) as G6.
     apply opt_stmt_frame in E6; [|congruence]. destruct r6; [discriminate|].
     inversion H; subst.
@@ -856,7 +854,8 @@ Qed.
 (** ** INSERT ... SELECT through the normal path: the same specification list, over the rows in SELECT order *)
 Theorem exec_insert_select_fires_once : forall f ctx d t src star dst s d' log n vrows,
   exec (S f) ctx d (SInsertSel t src star) = (d', log, Ok n) ->
-  get_table d t = Some dst -> get_table d src = Some s -> star && bulk_eligible dst s = false ->
+  get_table d t = Some dst -> get_table d src = Some s ->
+  star && is_none (hd_error (triggers_for_table (d_trigs d) t EvInsert)) && bulk_eligible dst s = false ->
   validate_rows d dst ctx (map (map ELit) (select_order (tb_rows s))) 0 [] = inr vrows ->
   log = spec_insert ctx (d_trigs d) t vrows /\ n = length vrows.
 Proof.
